@@ -247,6 +247,88 @@ impl Space for Deviated {
     }
 }
 
+/// Soundness on tables whose hash section and symbol names disagree: the section is built for one
+/// name list while the symbol table carries related but different names (extension, prefix, other).
+/// Whatever the lookup returns must be the entry at the returned index and carry the queried name.
+pub struct Mismatched {
+    pub gnu: bool,
+}
+impl Space for Mismatched {
+    fn name(&self) -> String {
+        format!("{} soundness on inconsistent input: section built for names A, symbol table carrying B with B[i] in {{A[i]+\"x\", A[i] minus its last byte, A[i+1], A[i]}} for every choice per symbol (4^5) x nbucket 1..3 x 4 encodings; queries A and B", if self.gnu { "GnuHashTable" } else { "SysVHashTable" })
+    }
+    fn size(&self) -> u64 {
+        1024 * 3 * 4
+    }
+    fn describe(&self, idx: u64) -> Value {
+        let d = unmix(idx, &[1024, 3, 4]);
+        json!({"relation_per_symbol_base4": format!("{:05}", radix4(d[0])), "nbucket": d[1] + 1, "encoding": ENCS[d[2] as usize].name()})
+    }
+    fn run(&self, idx: u64, out: &mut Outcome) {
+        let d = unmix(idx, &[1024, 3, 4]);
+        let enc = ENCS[d[2] as usize];
+        let a: Vec<Vec<u8>> = vec![b"a".to_vec(), b"ab".to_vec(), b"abc".to_vec(), b"bA".to_vec(), b"memset".to_vec()];
+        let built = build_table(self.gnu, enc, &a, 0b11111, 1, d[1] as usize + 1, 1, 5);
+        // built.names = final order used by the section; now lie about the names
+        let mut b_names = built.names.clone();
+        let n = b_names.len();
+        let mut code = d[0];
+        for i in built.first_hashed..n {
+            let rel = code % 4;
+            code /= 4;
+            let orig = built.names[i].clone();
+            b_names[i] = match rel {
+                0 => {
+                    let mut x = orig.clone();
+                    x.push(b'x');
+                    x
+                }
+                1 => orig[..orig.len().saturating_sub(1)].to_vec(),
+                2 => built.names[if i + 1 < n { i + 1 } else { built.first_hashed }].clone(),
+                _ => orig,
+            };
+        }
+        let (strtab, offs) = build_strtab(&b_names);
+        let symtab = build_symtab(enc, &offs);
+        let who = if self.gnu { "GnuHashTable::find" } else { "SysVHashTable::find" };
+        let mut qs = built.names.clone();
+        qs.extend(b_names.iter().cloned());
+        let mut dig = Fnv::new();
+        for q in qs {
+            out.transitions += 1;
+            match crate_find(self.gnu, enc, &built.sect, &symtab, &strtab, &q) {
+                Err(m) => {
+                    out.violate(format!("panic:{who} in {}", panic_site(&m)), m);
+                    return;
+                }
+                Ok(Some(Ok(Some((i, same))))) => {
+                    let name_ok = b_names.get(i).map(|x| *x == q).unwrap_or(false);
+                    if !same || !name_ok {
+                        out.violate(
+                            format!("unsound:{who}"),
+                            format!("{} section built for {:?}, symbol names {:?}, query {:?}: returned index {} named {:?}", enc.name(), built.names.iter().map(|x| String::from_utf8_lossy(x).to_string()).collect::<Vec<_>>(), b_names.iter().map(|x| String::from_utf8_lossy(x).to_string()).collect::<Vec<_>>(), String::from_utf8_lossy(&q), i, b_names.get(i).map(|x| String::from_utf8_lossy(x).to_string())),
+                        );
+                        return;
+                    }
+                    dig.u64(i as u64);
+                }
+                _ => {}
+            }
+        }
+        out.nontrivial(dig.get() ^ idx);
+    }
+}
+fn radix4(mut v: u64) -> u64 {
+    let mut out = 0;
+    let mut m = 1;
+    for _ in 0..5 {
+        out += (v % 4) * m;
+        v /= 4;
+        m *= 10;
+    }
+    out
+}
+
 /// The exported hash functions against the references.
 pub struct HashFn {
     pub gnu: bool,
@@ -480,6 +562,7 @@ pub fn build_c11(tier: Tier) -> CheckDef {
         spaces: vec![
             Box::new(Complete { gnu: true, usize_: tier.pick(7, 10), shifts, nbuckets: tier.pick(4, 6), blooms: if tier == Tier::Quick { vec![1, 2, 4] } else { vec![1, 2, 4, 8, 64] } }),
             Box::new(Deviated { gnu: true }),
+            Box::new(Mismatched { gnu: true }),
             Box::new(HashFn { gnu: true, long: tier == Tier::Thorough }),
             Box::new(Samples { gnu: true }),
             Box::new(BigTables { gnu: true }),
@@ -500,6 +583,7 @@ pub fn build_c12(tier: Tier) -> CheckDef {
         spaces: vec![
             Box::new(Complete { gnu: false, usize_: tier.pick(9, 10), shifts: vec![0], nbuckets: tier.pick(4, 8), blooms: vec![1] }),
             Box::new(Deviated { gnu: false }),
+            Box::new(Mismatched { gnu: false }),
             Box::new(HashFn { gnu: false, long: tier == Tier::Thorough }),
             Box::new(Samples { gnu: false }),
             Box::new(BigTables { gnu: false }),
